@@ -99,7 +99,7 @@ func (fr *frame) callFunction(v ssa.Value, callee *ssa.Function, args, binds []V
 	}
 	if ct != nil {
 		ct.used = true
-		return fr.contractCall(v, callee, ct, args, pos)
+		return fr.contractCall(v, callee, ct, args, binds, pos)
 	}
 	return fr.unknownCall(v, callee.String(), args, callee.Signature)
 }
@@ -193,10 +193,17 @@ func (fr *frame) inlineCall(v ssa.Value, callee *ssa.Function, args, binds []Val
 }
 
 // contractCall: modular use of a callee contract: check pre, havoc modifies, assume post.
-func (fr *frame) contractCall(v ssa.Value, callee *ssa.Function, ct *Contract, args []Val, pos ssa.Instruction) Val {
+func (fr *frame) contractCall(v ssa.Value, callee *ssa.Function, ct *Contract, args, binds []Val, pos ssa.Instruction) Val {
 	u := fr.u
 	pre := fr.st.clone()
 	env := &specEnv{u: u, fr: nil, st: pre, old: pre, vars: map[string]Val{}, pkgPath: ct.PkgPath, callee: callee}
+	// captured variables of a closure: the name denotes the current content of the captured cell
+	if len(binds) == len(callee.FreeVars) && len(binds) > 0 {
+		env.freeCells = map[string]*Ptr{}
+		for i, fv := range callee.FreeVars {
+			env.freeCells[fv.Name()] = fr.asPtr(binds[i], fv.Type())
+		}
+	}
 	params := callee.Params
 	for i, p := range params {
 		if i < len(args) {
@@ -211,6 +218,10 @@ func (fr *frame) contractCall(v ssa.Value, callee *ssa.Function, ct *Contract, a
 		}
 		if o := fr.obligeO("pre", fmt.Sprintf("precondition of %s: %s", ct.Key, rq.Src), pos.Pos(), t); o != nil {
 			o.Extra = extra
+			if len(ct.Props) > 0 {
+				// a caller-side obligation belongs to the properties of the callee's contract
+				o.Props = ct.Props
+			}
 		}
 		if t2, err := env.boolExpr(rq.E); err == nil {
 			fr.assume(t2)
@@ -233,7 +244,7 @@ func (fr *frame) contractCall(v ssa.Value, callee *ssa.Function, ct *Contract, a
 	for i := 0; i < res.Len(); i++ {
 		rs = append(rs, fr.freshOfType(fmt.Sprintf("%s_r%d", callee.Name(), i), res.At(i).Type()))
 	}
-	post := &specEnv{u: u, st: fr.st, old: pre, vars: env.vars, pkgPath: ct.PkgPath, callee: callee, results: rs}
+	post := &specEnv{u: u, st: fr.st, old: pre, vars: env.vars, pkgPath: ct.PkgPath, callee: callee, results: rs, freeCells: env.freeCells}
 	if len(ct.GhostMaps) > 0 {
 		post.ghost = map[string]string{}
 		for _, g := range ct.GhostMaps {
@@ -260,7 +271,103 @@ func (fr *frame) contractCall(v ssa.Value, callee *ssa.Function, ct *Contract, a
 
 // havocKey havocs one heap key named in a modifies clause. Forms: a raw key ("M.byte",
 // "H.Shard.x", "*"), or an expression such as "*p" / "p.f" / "s[..]" is mapped to its key.
+// modTarget: one heap key a modifies item may change; ref == "" means the whole key
+type modTarget struct {
+	key string
+	ref string
+}
+
+// resolveModifies maps a modifies item to heap keys (and object references).
+// Forms: "*", a raw key, a captured variable of a closure, "field(Type.f)" (all objects),
+// "locks(Type.f)" (ghost lock state of a class), or an expression (x.f, *p, m, s).
+func (env *specEnv) resolveModifies(mk string) (ts []modTarget, ok bool) {
+	u := env.u
+	if _, isKey := u.keySort[mk]; isKey {
+		return []modTarget{{mk, ""}}, true
+	}
+	if p, isFree := env.freeCells[mk]; isFree && p.kind == pHeapCell {
+		ts = append(ts, modTarget{u.keyCell(p.typ), p.ref})
+		if sl, isSl := p.typ.Underlying().(*types.Slice); isSl {
+			ts = append(ts, modTarget{u.keyM(sl.Elem()), ""})
+		}
+		return ts, true
+	}
+	for _, pfx := range []string{"field(", "locks("} {
+		if strings.HasPrefix(mk, pfx) && strings.HasSuffix(mk, ")") {
+			inner := strings.TrimSuffix(strings.TrimPrefix(mk, pfx), ")")
+			i := strings.LastIndex(inner, ".")
+			if i < 0 {
+				return nil, false
+			}
+			t, err := u.eng.ResolveType(env.pkgPath, inner[:i])
+			if err != nil {
+				return nil, false
+			}
+			st, isSt := t.Underlying().(*types.Struct)
+			if !isSt {
+				return nil, false
+			}
+			for f := 0; f < st.NumFields(); f++ {
+				if st.Field(f).Name() == inner[i+1:] {
+					if pfx == "field(" {
+						return []modTarget{{u.keyField(t, f), ""}}, true
+					}
+					return []modTarget{{u.regKey("Held."+shortTypeName(t)+"."+inner[i+1:], "(Array Int Int)"), ""}}, true
+				}
+			}
+			return nil, false
+		}
+	}
+	if e, err := ParseSpec(mk); err == nil {
+		if keys, ok := env.keysOfLValue(e); ok {
+			ref, hasRef := env.refOfLValue(e)
+			for _, k := range keys {
+				if hasRef && strings.HasPrefix(u.keySort[k], "(Array Int ") {
+					ts = append(ts, modTarget{k, ref})
+				} else {
+					ts = append(ts, modTarget{k, ""})
+				}
+			}
+			return ts, true
+		}
+	}
+	return nil, false
+}
+
 func (fr *frame) havocKey(mk string, env *specEnv) {
+	u := fr.u
+	if mk == "*" {
+		fr.havocAll("modifies *")
+		return
+	}
+	if ts, ok := env.resolveModifies(mk); ok {
+		for _, t := range ts {
+			srt := u.keySort[t.key]
+			if t.ref != "" {
+				inner := strings.TrimSuffix(strings.TrimPrefix(srt, "(Array Int "), ")")
+				c := u.declConst(fr.tag("hvobj_"+t.key), inner)
+				if et, ok := u.keyElem[t.key]; ok && (strings.HasPrefix(t.key, "H.") || strings.HasPrefix(t.key, "C.")) {
+					if ti := u.typeInvariant(c, et, 0); ti != "" {
+						u.assert(ti)
+					}
+					if isRefLike(et) {
+						u.assert("(<= " + refOf(c, et) + " " + fr.st.get(u, allocKey) + ")")
+					}
+				}
+				nk := u.define(fr.tag("hv_"+t.key), srt, fmt.Sprintf("(store %s %s %s)", fr.st.get(u, t.key), t.ref, c))
+				fr.st.setAt(t.key, nk, t.ref)
+				continue
+			}
+			c := u.declConst(fr.tag("hv_"+t.key), srt)
+			u.heapTyping(t.key, c)
+			fr.st.set(t.key, c)
+		}
+		return
+	}
+	u.bindingError(fmt.Sprintf("modifies clause %q does not denote a heap location", mk))
+}
+
+func (fr *frame) havocKeyOld(mk string, env *specEnv) {
 	u := fr.u
 	if mk == "*" {
 		fr.havocAll("modifies *")
@@ -273,6 +380,20 @@ func (fr *frame) havocKey(mk string, env *specEnv) {
 	}
 	if _, ok := u.keySort[mk]; ok {
 		hv(mk)
+		return
+	}
+	// a captured variable of a closure: its cell (and, for slices, the element store)
+	if p, ok := env.freeCells[mk]; ok && p.kind == pHeapCell {
+		k := u.keyCell(p.typ)
+		c := u.declConst(fr.tag("hvcell"), u.sortOf(p.typ))
+		if ti := u.typeInvariant(c, p.typ, 0); ti != "" {
+			u.assert(ti)
+		}
+		fr.st.setAt(k, fmt.Sprintf("(store %s %s %s)", fr.st.get(u, k), p.ref, c), p.ref)
+		if sl, ok := p.typ.Underlying().(*types.Slice); ok {
+			hv(u.keyM(sl.Elem()))
+			u.assert("(<= (s_ref " + c + ") " + fr.st.get(u, allocKey) + ")")
+		}
 		return
 	}
 	// expression forms: only the named object is havoc'd (frame: all other objects are unchanged)
@@ -302,7 +423,11 @@ func (fr *frame) havocKey(mk string, env *specEnv) {
 	u.bindingError(fmt.Sprintf("modifies clause %q does not denote a heap location", mk))
 }
 
-func (fr *frame) havocAll(why string) {
+func (fr *frame) havocAll(why string) { fr.havocAllMark(why, "*") }
+
+// havocAllMark havocs the data heap; mark is "*" for effects of the function itself and
+// "*conc" for effects of concurrently running code (not part of the function's own frame).
+func (fr *frame) havocAllMark(why, mark string) {
 	u := fr.u
 	u.note("%s: whole heap havoc'd: %s", fr.fn.Name(), why)
 	ws := fr.st.ws
@@ -318,7 +443,7 @@ func (fr *frame) havocAll(why string) {
 	u.nfresh++
 	na := fr.st.get(u, allocKey)
 	u.assert("(>= " + na + " " + alloc + ")")
-	fr.st.markWritten("*")
+	fr.st.markWritten(mark)
 	for _, k := range sortedKeys(keep) {
 		fr.st.over[k] = keep[k]
 	}
@@ -456,10 +581,30 @@ func (fr *frame) contractCallSig(v ssa.Value, ct *Contract, sig *types.Signature
 		}
 		if o := fr.obligeO("pre", fmt.Sprintf("precondition of %s: %s", ct.Key, rq.Src), pos.Pos(), t); o != nil {
 			o.Extra = extra
+			if len(ct.Props) > 0 {
+				// a caller-side obligation belongs to the properties of the callee's contract
+				o.Props = ct.Props
+			}
 		}
 		if t2, err := env.boolExpr(rq.E); err == nil {
 			fr.assume(t2)
 		}
+	}
+	if ct.Invokes != "" {
+		// schema contract: the callee calls its function argument exactly once and returns its result
+		for i, nm := range names {
+			if nm == ct.Invokes && i < len(args) && args[i].fn != nil {
+				cl := args[i]
+				var cargs []Val
+				csig := cl.fn.Signature
+				for k := 0; k < csig.Params().Len(); k++ {
+					cargs = append(cargs, fr.freshOfType("cbarg", csig.Params().At(k).Type()))
+				}
+				u.note("%s modelled as: calls its argument %s exactly once and returns its result (assumed schema contract)", name, nm)
+				return fr.callFunction(v, cl.fn, cargs, cl.binds, pos)
+			}
+		}
+		u.note("%s: 'invokes %s' could not be resolved to a closure at this call", name, ct.Invokes)
 	}
 	if !ct.HasMod {
 		fr.havocAll("call to " + name + " (contract without modifies clause)")
